@@ -102,7 +102,7 @@ func anyShapePayload() *core.Payload {
 	switch verif.Choose("forwarding-attributes", 4) {
 	case 0: // none
 	case 1:
-		must(f.SetAttributes(&fwdtypes.CCTPAttributes{DestinationDomain: uint32(verif.Choose("domain", 3) * 2), MintRecipient: verif.Bytes("recipient", 2), DestinationCaller: verif.Bytes("caller", 2)})) // domains 0, 2, 4 (4 = Noble, refused); all domains: C05 / C20
+		must(f.SetAttributes(&fwdtypes.CCTPAttributes{DestinationDomain: uint32(verif.Choose("domain", 3) * 2), MintRecipient: verif.Bytes("recipient", verif.Bound("bytes")), DestinationCaller: verif.Bytes("caller", verif.Bound("bytes"))})) // domains 0, 2, 4 (4 = Noble, refused); all domains: C05 / C20
 	case 2:
 		// byte fields: arbitrary bytes of arbitrary length (thorough) or zero bytes of arbitrary length (quick)
 		byteField := func(label string) []byte {
